@@ -35,6 +35,9 @@ namespace Gts.KeyEnc
 
 abbrev Bytes := List UInt8
 
+/-- the bytes of an ASCII string literal (used to write keys and expected texts) -/
+def ascii (s : String) : Bytes := s.toList.map fun c => UInt8.ofNat c.toNat
+
 /-! ### unicode/utf8 -/
 
 /-- `utf8.DecodeRuneInString(s)` for `s = b0 :: rest`: the rune and its width in bytes; every
